@@ -183,4 +183,964 @@ theorem replaceChild_mid {l1 l2 : List Nat} {n old : Nat} (hnd : (l1 ++ old :: l
       simp only [List.head?_cons, this, if_false]
       rw [erase_right hn hyn, List.erase_cons_tail (by simpa using hyn), insertAt_mid n hy]
 
+/-- moving (or inserting) `n` before the head of `l2`, stated via `erase` -/
+theorem insertBefore_move {ch l1 l2 : List Nat} {n : Nat} (hnd : ch.Nodup) (he : ch.erase n = l1 ++ l2) :
+    insertBefore ch n l2.head? = .ok (l1 ++ n :: l2) := by
+  cases l2 with
+  | nil => rw [List.head?_nil, insertBefore_none, he]; simp
+  | cons r l2 =>
+    have hr : r ∈ ch.erase n := by rw [he]; simp
+    have hnr : n ≠ r := fun e => (hnd.mem_erase_iff.mp hr).1 e.symm
+    exact insertBefore_some_erase hnd hnr he
+
+/-- the two `insertBefore` calls of the swap branch exchange the two ends of a run of siblings -/
+theorem swap_ops {l1 M l2 : List Nat} {a0 a1 : Nat} (hnd : (l1 ++ a0 :: (M ++ a1 :: l2)).Nodup) :
+    ∃ ch1, insertBefore (l1 ++ a0 :: (M ++ a1 :: l2)) a1 (nextSibling (l1 ++ a0 :: (M ++ a1 :: l2)) a0) = .ok ch1 ∧
+      insertBefore ch1 a0 (nextSibling (l1 ++ a0 :: (M ++ a1 :: l2)) a1) = .ok (l1 ++ a1 :: (M ++ a0 :: l2)) := by
+  have hnd0 := hnd
+  simp only [List.nodup_append, List.mem_append, List.nodup_cons, List.mem_cons] at hnd
+  have ha0 : a0 ∉ l1 := by grind
+  have ha1 : a1 ∉ l1 ++ a0 :: M := by simp only [List.mem_append, List.mem_cons]; grind
+  have hns1 : nextSibling (l1 ++ a0 :: (M ++ a1 :: l2)) a1 = l2.head? := by
+    rw [show l1 ++ a0 :: (M ++ a1 :: l2) = (l1 ++ a0 :: M) ++ a1 :: l2 by simp]
+    exact nextSibling_mid ha1
+  have hnd1 : (l1 ++ a0 :: a1 :: (M ++ l2)).Nodup := by
+    simp only [List.nodup_append, List.mem_append, List.nodup_cons, List.mem_cons]; grind
+  have he : (l1 ++ a0 :: a1 :: (M ++ l2)).erase a0 = (l1 ++ a1 :: M) ++ l2 := by
+    rw [erase_mid ha0]; simp
+  refine ⟨l1 ++ a0 :: a1 :: (M ++ l2), ?_, ?_⟩
+  · rw [nextSibling_mid ha0]
+    cases M with
+    | nil =>
+      simp only [List.nil_append, List.head?_cons]
+      have := @insertBefore_self (l1 ++ [a0]) l2 a1 (by simpa using hnd0)
+      simpa using this
+    | cons m M =>
+      simp only [List.cons_append, List.head?_cons]
+      have hm : a1 ≠ m := by grind
+      have h1 : a1 ∉ l1 ++ [a0] := by simp only [List.mem_append, List.mem_singleton]; grind
+      have h2 : a1 ∉ M := by grind
+      have := @insertBefore_some (l1 ++ [a0]) (M ++ a1 :: l2) a1 m (by simpa using hnd0) h1 hm
+      rw [erase_mid h2] at this
+      simpa using this
+  · rw [hns1]
+    have := insertBefore_move hnd1 he
+    simpa using this
+
+/-! ### the two inner loops -/
+
+theorem nodup_insert_mid {l1 l2 : List Nat} {x : Nat} (hnd : (l1 ++ l2).Nodup) (hx : x ∉ l1 ++ l2) :
+    ((l1 ++ [x]) ++ l2).Nodup := by
+  simp only [List.nodup_append, List.mem_append, List.nodup_cons, List.mem_singleton] at *
+  grind
+
+/-- inserting detached nodes before the head of `l2` (or at the end) -/
+theorem insertAll_fresh {l2 L : List Nat} : ∀ {l1 : List Nat}, (l1 ++ l2).Nodup → L.Nodup →
+    (∀ x ∈ L, x ∉ l1 ++ l2) → insertAll (l1 ++ l2) l2.head? L = .ok (l1 ++ L ++ l2) := by
+  induction L with
+  | nil => intro l1 _ _ _; simp [insertAll]
+  | cons x L ih =>
+    intro l1 hnd hL hd
+    have hx := hd x (by simp)
+    simp only [insertAll, insertBefore_fresh hnd hx]
+    have := @ih (l1 ++ [x]) (by simpa using nodup_insert_mid hnd hx) (List.nodup_cons.mp hL).2
+      (by
+        intro y hy
+        have := hd y (by simp [hy])
+        have hne : y ≠ x := fun e => (List.nodup_cons.mp hL).1 (e ▸ hy)
+        simp at this ⊢; simp [this, hne])
+    simpa using this
+
+theorem nodup_move_before {l1 l2 : List Nat} {x r : Nat} (hnd : (l1 ++ r :: l2).Nodup)
+    (hx : x ∉ l1) (hxr : x ≠ r) : ((l1 ++ [x]) ++ r :: l2.erase x).Nodup := by
+  have hl2 : l2.Nodup := (List.nodup_cons.mp (List.nodup_append.mp hnd).2.1).2
+  have hm : ∀ y, y ∈ l2.erase x ↔ y ≠ x ∧ y ∈ l2 := fun y => hl2.mem_erase_iff
+  have hl2' : (l2.erase x).Nodup := hl2.sublist List.erase_sublist
+  simp only [List.nodup_append, List.mem_append, List.nodup_cons, List.mem_cons] at *
+  grind
+
+/-- inserting nodes (detached, or children somewhere after `r`) before the child `r` -/
+theorem insertAll_before {r : Nat} {L : List Nat} : ∀ {l1 l2 : List Nat}, (l1 ++ r :: l2).Nodup → L.Nodup →
+    (∀ x ∈ L, x ∉ l1 ∧ x ≠ r) →
+    insertAll (l1 ++ r :: l2) (some r) L = .ok (l1 ++ L ++ r :: without l2 L) := by
+  induction L with
+  | nil => intro l1 l2 _ _ _; simp [insertAll]
+  | cons x L ih =>
+    intro l1 l2 hnd hL hd
+    have hx := hd x (by simp)
+    have hl2 : l2.Nodup := (List.nodup_cons.mp (List.nodup_append.mp hnd).2.1).2
+    simp only [insertAll, insertBefore_some hnd hx.1 hx.2]
+    have := @ih (l1 ++ [x]) (l2.erase x) (nodup_move_before hnd hx.1 hx.2) (List.nodup_cons.mp hL).2
+      (by
+        intro y hy
+        have := hd y (by simp [hy])
+        have hne : y ≠ x := fun e => (List.nodup_cons.mp hL).1 (e ▸ hy)
+        simp [this, hne])
+    rw [without_cons_right, ← erase_eq_without hl2]
+    simpa using this
+
+/-- the test of the removal loop: the map (if any) does not know `x` -/
+def unknown (m : Option NodeMap) (x : Nat) : Bool := m.isNone || (m.bind (·.get x)).isNone
+
+theorem removeAll_cons (ch : List Nat) (m : Option NodeMap) (x : Nat) (xs : List Nat) :
+    removeAll ch m (x :: xs) =
+      if unknown m x then
+        match removeChild ch x with
+        | .error e => .error e
+        | .ok ch => removeAll ch m xs
+      else removeAll ch m xs := rfl
+
+/-- the removal loop removes exactly the nodes selected by its test -/
+theorem removeAll_spec {l1 l2 : List Nat} (m : Option NodeMap) : ∀ {A : List Nat},
+    (∀ x ∈ A, unknown m x = true → x ∉ l1) →
+    removeAll (l1 ++ A.filter (unknown m) ++ l2) m A = .ok (l1 ++ l2) := by
+  intro A
+  induction A with
+  | nil => intro _; simp [removeAll]
+  | cons x A ih =>
+    intro h
+    have ih := ih (fun y hy => h y (by simp [hy]))
+    by_cases hp : unknown m x = true
+    · have hx := h x (by simp) hp
+      rw [List.filter_cons_of_pos hp, removeAll_cons, if_pos hp]
+      rw [show l1 ++ x :: List.filter (unknown m) A ++ l2
+          = l1 ++ x :: (List.filter (unknown m) A ++ l2) by simp,
+        removeChild_mid hx]
+      simpa using ih
+    · rw [List.filter_cons_of_neg hp, removeAll_cons, if_neg hp]
+      exact ih
+
+/-! ### the node → index map -/
+
+theorem get_zipIdx {L : List Nat} (k : Nat) : ∀ (n : Nat), L.Nodup → ∀ (x j : Nat),
+    NodeMap.get ((L.zipIdx n).map fun (g, i) => (g, k + i)) x = some j ↔
+      ∃ i, L[i]? = some x ∧ j = k + (n + i) := by
+  induction L with
+  | nil => intro n _ x j; simp [NodeMap.get]
+  | cons y L ih =>
+    intro n hL x j
+    have hy : y ∉ L := (List.nodup_cons.mp hL).1
+    have ih := ih (n + 1) (List.nodup_cons.mp hL).2 x j
+    by_cases hyx : y = x
+    · subst hyx
+      simp only [NodeMap.get, List.zipIdx_cons, List.map_cons, List.find?_cons, beq_self_eq_true,
+        Option.map_some, Option.some.injEq]
+      constructor
+      · intro h; exact ⟨0, by simp, by omega⟩
+      · rintro ⟨i, hi, hj⟩
+        cases i with
+        | zero => omega
+        | succ i => simp at hi; exact absurd (List.mem_of_getElem? hi) hy
+    · have hb : (y == x) = false := by simpa using hyx
+      simp only [NodeMap.get, List.zipIdx_cons, List.map_cons, List.find?_cons, hb] at ih ⊢
+      rw [ih]
+      constructor
+      · rintro ⟨i, hi, hj⟩; exact ⟨i + 1, by simpa using hi, by omega⟩
+      · rintro ⟨i, hi, hj⟩
+        cases i with
+        | zero => simp at hi; exact absurd hi hyx
+        | succ i => exact ⟨i, by simpa using hi, by omega⟩
+
+/-! ### unfolding `iter`, one lemma per branch -/
+
+section Unfold
+variable {b : Array Nat} {after : Option Nat} {s : St}
+
+/-- the slices the model iterates over -/
+def St.aWin (s : St) : List Nat := (s.a.toList.drop s.aStart).take (s.aEnd - s.aStart)
+def bWin (b : Array Nat) (s : St) : List Nat := (b.toList.drop s.bStart).take (s.bEnd - s.bStart)
+
+theorem iter_append_end {ch : List Nat} (h : s.aEnd = s.aStart) (hb : ¬ s.bEnd < b.size)
+    (hi : insertAll s.ch after (bWin b s) = .ok ch) :
+    iter b after s = .ok { s with ch := ch, bStart := s.bEnd } := by
+  unfold bWin at hi; simp [iter, h, hb, hi]
+
+theorem iter_append_mid {ch : List Nat} {x : Nat} (h : s.aEnd = s.aStart) (hb : s.bEnd < b.size)
+    (h0 : s.bStart ≠ 0) (hx : b[s.bStart - 1]? = some x)
+    (hi : insertAll s.ch (nextSibling s.ch x) (bWin b s) = .ok ch) :
+    iter b after s = .ok { s with ch := ch, bStart := s.bEnd } := by
+  unfold bWin at hi; simp [iter, h, hb, h0, hx, hi]
+
+theorem iter_append_start {ch : List Nat} {x : Nat} (h : s.aEnd = s.aStart) (hb : s.bEnd < b.size)
+    (h0 : s.bStart = 0) (hx : b[s.bEnd - s.bStart]? = some x)
+    (hi : insertAll s.ch (some x) (bWin b s) = .ok ch) :
+    iter b after s = .ok { s with ch := ch, bStart := s.bEnd } := by
+  unfold bWin at hi
+  simp only [iter, h, if_true, hb, h0, ne_eq, not_true_eq_false, if_false] at hx hi ⊢
+  simp only [hx, hi]
+
+theorem iter_remove {ch : List Nat} (h : s.aEnd ≠ s.aStart) (hb : s.bEnd = s.bStart)
+    (hr : removeAll s.ch s.map s.aWin = .ok ch) :
+    iter b after s = .ok { s with ch := ch, aStart := s.aEnd } := by
+  unfold St.aWin at hr; simp [iter, h, hb, hr]
+
+variable {a0 b0 a1 b1 : Nat}
+
+theorem iter_prefix (h : s.aEnd ≠ s.aStart) (hb : s.bEnd ≠ s.bStart)
+    (ha0 : s.a[s.aStart]? = some a0) (hb0 : b[s.bStart]? = some b0)
+    (ha1 : s.a[s.aEnd - 1]? = some a1) (hb1 : b[s.bEnd - 1]? = some b1) (e : a0 = b0) :
+    iter b after s = .ok { s with aStart := s.aStart + 1, bStart := s.bStart + 1 } := by
+  simp [iter, h, hb, ha0, hb0, ha1, hb1, e]
+
+theorem iter_suffix (h : s.aEnd ≠ s.aStart) (hb : s.bEnd ≠ s.bStart)
+    (ha0 : s.a[s.aStart]? = some a0) (hb0 : b[s.bStart]? = some b0)
+    (ha1 : s.a[s.aEnd - 1]? = some a1) (hb1 : b[s.bEnd - 1]? = some b1) (e0 : a0 ≠ b0) (e : a1 = b1) :
+    iter b after s = .ok { s with aEnd := s.aEnd - 1, bEnd := s.bEnd - 1 } := by
+  simp [iter, h, hb, ha0, hb0, ha1, hb1, e0, e]
+
+theorem iter_swap {ch1 ch2 : List Nat} (h : s.aEnd ≠ s.aStart) (hb : s.bEnd ≠ s.bStart)
+    (ha0 : s.a[s.aStart]? = some a0) (hb0 : b[s.bStart]? = some b0)
+    (ha1 : s.a[s.aEnd - 1]? = some a1) (hb1 : b[s.bEnd - 1]? = some b1) (e0 : a0 ≠ b0) (e1 : a1 ≠ b1)
+    (e : a0 = b1 ∧ b0 = a1)
+    (h1 : insertBefore s.ch b0 (nextSibling s.ch a0) = .ok ch1)
+    (h2 : insertBefore ch1 b1 (nextSibling s.ch a1) = .ok ch2)
+    (hsz : s.aEnd - 1 < s.a.size) :
+    iter b after s = .ok { s with ch := ch2, aStart := s.aStart + 1, bStart := s.bStart + 1,
+                                  aEnd := s.aEnd - 1, bEnd := s.bEnd - 1, a := s.a.set! (s.aEnd - 1) b1 } := by
+  obtain ⟨e2, e3⟩ := e
+  subst e2 e3
+  simp only [iter, h, hb, ha0, hb0, ha1, hb1, e0, e1, if_false, and_self, if_true, h1, h2, hsz]
+
+/-- the map used by the fallback branch -/
+def theMap (b : Array Nat) (s : St) : NodeMap :=
+  match s.map with
+  | some m => m
+  | none => (bWin b s).zipIdx.map fun (g, i) => (g, s.bStart + i)
+
+/-- the fallback branch, with the map named -/
+def mapBranch (b : Array Nat) (s : St) (a0 b0 : Nat) : Except DomErr St :=
+  let m := theMap b s
+  let s := { s with map := some m }
+  match m.get a0 with
+  | some index =>
+    if s.bStart < index ∧ index < s.bEnd then
+      let sequence := seqLen s.a m s.aEnd s.bEnd index (s.a.size + 1) s.aStart 1
+      if sequence > index - s.bStart then
+        match insertAll s.ch (some a0) ((b.toList.drop s.bStart).take (index - s.bStart)) with
+        | .error e => .error e
+        | .ok ch => .ok { s with ch := ch, bStart := index }
+      else
+        match replaceChild s.ch b0 a0 with
+        | .error e => .error e
+        | .ok ch => .ok { s with ch := ch, aStart := s.aStart + 1, bStart := s.bStart + 1 }
+    else .ok { s with aStart := s.aStart + 1 }
+  | none =>
+    match removeChild s.ch a0 with
+    | .error e => .error e
+    | .ok ch => .ok { s with ch := ch, aStart := s.aStart + 1 }
+
+theorem iter_map (h : s.aEnd ≠ s.aStart) (hb : s.bEnd ≠ s.bStart)
+    (ha0 : s.a[s.aStart]? = some a0) (hb0 : b[s.bStart]? = some b0)
+    (ha1 : s.a[s.aEnd - 1]? = some a1) (hb1 : b[s.bEnd - 1]? = some b1) (e0 : a0 ≠ b0) (e1 : a1 ≠ b1)
+    (e : ¬ (a0 = b1 ∧ b0 = a1)) :
+    iter b after s = mapBranch b s a0 b0 := by
+  simp only [iter, h, hb, ha0, hb0, ha1, hb1, e0, e1, e, if_false]
+  rfl
+
+theorem mapBranch_insert {ch : List Nat} {index : Nat}
+    (hm : (theMap b s).get a0 = some index) (hr : s.bStart < index ∧ index < s.bEnd)
+    (hs : seqLen s.a (theMap b s) s.aEnd s.bEnd index (s.a.size + 1) s.aStart 1 > index - s.bStart)
+    (hi : insertAll s.ch (some a0) ((b.toList.drop s.bStart).take (index - s.bStart)) = .ok ch) :
+    mapBranch b s a0 b0 = .ok { s with map := some (theMap b s), ch := ch, bStart := index } := by
+  simp only [mapBranch, hm, hr, and_self, if_true, hs, hi]
+
+theorem mapBranch_replace {ch : List Nat} {index : Nat}
+    (hm : (theMap b s).get a0 = some index) (hr : s.bStart < index ∧ index < s.bEnd)
+    (hs : ¬ seqLen s.a (theMap b s) s.aEnd s.bEnd index (s.a.size + 1) s.aStart 1 > index - s.bStart)
+    (hi : replaceChild s.ch b0 a0 = .ok ch) :
+    mapBranch b s a0 b0 = .ok { s with map := some (theMap b s), ch := ch, aStart := s.aStart + 1,
+                                       bStart := s.bStart + 1 } := by
+  simp only [mapBranch, hm, hr, and_self, if_true, hs, if_false, hi]
+
+theorem mapBranch_skip {index : Nat}
+    (hm : (theMap b s).get a0 = some index) (hr : ¬ (s.bStart < index ∧ index < s.bEnd)) :
+    mapBranch b s a0 b0 = .ok { s with map := some (theMap b s), aStart := s.aStart + 1 } := by
+  simp only [mapBranch, hm, hr, if_false]
+
+theorem mapBranch_remove {ch : List Nat}
+    (hm : (theMap b s).get a0 = none) (hi : removeChild s.ch a0 = .ok ch) :
+    mapBranch b s a0 b0 = .ok { s with map := some (theMap b s), ch := ch, aStart := s.aStart + 1 } := by
+  simp only [mapBranch, hm, hi]
+
+end Unfold
+
+/-! ### the loop invariant -/
+
+/-- facts that never change during a call -/
+structure Fixed (pre post b : List Nat) (after : Option Nat) : Prop where
+  bnd : b.Nodup
+  prend : pre.Nodup
+  postnd : post.Nodup
+  prepost : ∀ x ∈ pre, x ∉ post
+  bpre : ∀ x ∈ b, x ∉ pre
+  bpost : ∀ x ∈ b, x ∉ post
+  after_eq : after = post.head?
+
+/-- the map, once built, is the index function of `b` on a window `[s0, e0)` that contains the
+current window; no remaining old node sits before that window -/
+def MapSome (b : List Nat) (m : NodeMap) (bS bE : Nat) (A : List Nat) : Prop :=
+  ∃ s0 e0, s0 ≤ bS ∧ bE ≤ e0 ∧ (∀ x j, m.get x = some j ↔ (s0 ≤ j ∧ j < e0 ∧ b[j]? = some x)) ∧
+    ∀ x ∈ A, ∀ j, b[j]? = some x → s0 ≤ j
+
+def MapOk (b : List Nat) (map : Option NodeMap) (bS bE : Nat) (A Bp : List Nat) : Prop :=
+  match map with
+  | none => ∀ x ∈ A, x ∉ Bp
+  | some m => MapSome b m bS bE A
+
+/-- `a = aL ++ A ++ aR`, `b = Bp ++ B ++ Bs` with `A`, `B` the current windows; the children are
+`pre ++ Bp ++ (A minus the nodes already placed in Bp) ++ Bs ++ post` -/
+structure Inv (pre post b : List Nat) (s : St) (aL A aR Bp B Bs : List Nat) : Prop where
+  ha : s.a.toList = aL ++ A ++ aR
+  haS : aL.length = s.aStart
+  haE : s.aEnd = s.aStart + A.length
+  hb : b = Bp ++ B ++ Bs
+  hbS : Bp.length = s.bStart
+  hbE : s.bEnd = s.bStart + B.length
+  hch : s.ch = pre ++ Bp ++ without A Bp ++ Bs ++ post
+  hA : A.Nodup
+  hABs : ∀ x ∈ A, x ∉ Bs
+  hApre : ∀ x ∈ A, x ∉ pre
+  hApost : ∀ x ∈ A, x ∉ post
+  hmap : MapOk b s.map s.bStart s.bEnd A Bp
+
+section InvLemmas
+variable {pre post b : List Nat} {after : Option Nat} {s : St} {aL A aR Bp B Bs : List Nat}
+
+theorem Inv.ch_nodup (F : Fixed pre post b after) (I : Inv pre post b s aL A aR Bp B Bs) :
+    (pre ++ Bp ++ without A Bp ++ Bs ++ post).Nodup := by
+  have h1 := F.bnd
+  have h2 := F.prend
+  have h3 := F.postnd
+  have h4 := F.prepost
+  have h5 := F.bpre
+  have h6 := F.bpost
+  have h7 := nodup_without Bp I.hA
+  have h8 := I.hABs
+  have h9 := I.hApre
+  have h10 := I.hApost
+  rw [I.hb] at h1 h5 h6
+  simp only [List.nodup_append, List.mem_append, mem_without] at *
+  grind
+
+theorem getElem?_mid (l1 l2 : List Nat) (x : Nat) (i : Nat) (h : i = l1.length) :
+    (l1 ++ x :: l2)[i]? = some x := by subst h; simp
+
+theorem Inv.a_first {a0 : Nat} {A' : List Nat} (I : Inv pre post b s aL (a0 :: A') aR Bp B Bs) :
+    s.a[s.aStart]? = some a0 := by
+  rw [← Array.getElem?_toList, I.ha]
+  simpa using getElem?_mid aL (A' ++ aR) a0 s.aStart I.haS.symm
+
+theorem Inv.a_last {a1 : Nat} {Ai : List Nat} (I : Inv pre post b s aL (Ai ++ [a1]) aR Bp B Bs) :
+    s.a[s.aEnd - 1]? = some a1 := by
+  rw [← Array.getElem?_toList, I.ha]
+  have := I.haE; have := I.haS
+  simpa using getElem?_mid (aL ++ Ai) aR a1 (s.aEnd - 1) (by simp at *; omega)
+
+theorem Inv.b_first {b0 : Nat} {B' : List Nat} (I : Inv pre post b s aL A aR Bp (b0 :: B') Bs) :
+    b.toArray[s.bStart]? = some b0 := by
+  rw [List.getElem?_toArray, I.hb]
+  simpa using getElem?_mid Bp (B' ++ Bs) b0 s.bStart I.hbS.symm
+
+theorem Inv.b_last {b1 : Nat} {Bi : List Nat} (I : Inv pre post b s aL A aR Bp (Bi ++ [b1]) Bs) :
+    b.toArray[s.bEnd - 1]? = some b1 := by
+  rw [List.getElem?_toArray, I.hb]
+  have := I.hbE; have := I.hbS
+  simpa using getElem?_mid (Bp ++ Bi) Bs b1 (s.bEnd - 1) (by simp at *; omega)
+
+theorem Inv.aWin_eq (I : Inv pre post b s aL A aR Bp B Bs) : s.aWin = A := by
+  have h1 := I.haE; have h2 := I.haS
+  rw [St.aWin, I.ha, ← h2, show s.aEnd - aL.length = A.length by omega]
+  simp
+
+theorem Inv.bWin_eq (I : Inv pre post b s aL A aR Bp B Bs) : bWin b.toArray s = B := by
+  have h1 := I.hbE; have h2 := I.hbS
+  have h3 : b.toArray.toList = Bp ++ B ++ Bs := by simpa using I.hb
+  rw [bWin, h3, ← h2, show s.bEnd - Bp.length = B.length by omega]
+  simp
+
+/-- consequences of `b.Nodup` for the three parts -/
+theorem Inv.b_parts (F : Fixed pre post b after) (I : Inv pre post b s aL A aR Bp B Bs) :
+    Bp.Nodup ∧ B.Nodup ∧ Bs.Nodup ∧ (∀ x ∈ Bp, x ∉ B) ∧ (∀ x ∈ Bp, x ∉ Bs) ∧ (∀ x ∈ B, x ∉ Bs) := by
+  have h1 := F.bnd
+  rw [I.hb] at h1
+  simp only [List.nodup_append, List.mem_append] at h1
+  grind
+
+theorem without_snoc_of_not_mem {A L : List Nat} {x : Nat} (h : x ∉ A) : without A (L ++ [x]) = without A L := by
+  rw [without_append_right]
+  exact without_eq_self (fun y hy => by simp; intro e; exact h (e ▸ (mem_without.mp hy).1))
+
+theorem MapSome.mono {m : NodeMap} {bS bE bS' bE' : Nat} {A' : List Nat} (h : MapSome b m bS bE A)
+    (h1 : bS ≤ bS') (h2 : bE' ≤ bE) (h3 : ∀ x ∈ A', x ∈ A) : MapSome b m bS' bE' A' := by
+  obtain ⟨s0, e0, a1, a2, a3, a4⟩ := h
+  exact ⟨s0, e0, by omega, by omega, a3, fun x hx => a4 x (h3 x hx)⟩
+
+/-- common prefix -/
+theorem Inv.step_prefix {a0 : Nat} {A' B' : List Nat} (F : Fixed pre post b after)
+    (I : Inv pre post b s aL (a0 :: A') aR Bp (a0 :: B') Bs) :
+    Inv pre post b { s with aStart := s.aStart + 1, bStart := s.bStart + 1 }
+      (aL ++ [a0]) A' aR (Bp ++ [a0]) B' Bs := by
+  obtain ⟨p1, p2, p3, p4, p5, p6⟩ := I.b_parts F
+  have hA := I.hA
+  have hn : a0 ∉ A' := (List.nodup_cons.mp hA).1
+  have hBp : a0 ∉ Bp := fun h => p4 a0 h (by simp)
+  refine ⟨by simpa using I.ha, by simpa using I.haS, by have := I.haE; simp at *; omega,
+    by simpa using I.hb, by simpa using I.hbS, by have := I.hbE; simp at *; omega, ?_,
+    (List.nodup_cons.mp hA).2, fun x hx => I.hABs x (by simp [hx]), fun x hx => I.hApre x (by simp [hx]),
+    fun x hx => I.hApost x (by simp [hx]), ?_⟩
+  · have := I.hch
+    rw [without_cons_of_not_mem hBp] at this
+    simp only [without_snoc_of_not_mem hn]
+    simpa using this
+  · have hm := I.hmap
+    have := I.hbE
+    simp only [MapOk] at hm ⊢
+    split
+    · rename_i h; simp only [h] at hm
+      intro x hx; simp [hm x (by simp [hx])]; intro e; exact hn (e ▸ hx)
+    · rename_i m h; simp only [h] at hm
+      exact hm.mono (by omega) (by omega) (fun x hx => by simp [hx])
+
+/-- a `MapOk` for a smaller window and fewer remaining nodes, `Bp` grown by nodes not remaining -/
+theorem MapOk.mono {map : Option NodeMap} {bS bE bS' bE' : Nat} {A' Bp' : List Nat}
+    (h : MapOk b map bS bE A Bp) (h1 : bS ≤ bS') (h2 : bE' ≤ bE) (h3 : ∀ x ∈ A', x ∈ A)
+    (h4 : ∀ x ∈ A', x ∈ Bp' → x ∈ Bp) : MapOk b map bS' bE' A' Bp' := by
+  cases map with
+  | none => exact fun x hx hp => h x (h3 x hx) (h4 x hx hp)
+  | some m => exact MapSome.mono h h1 h2 h3
+
+/-- common suffix -/
+theorem Inv.step_suffix {a1 : Nat} {Ai Bi : List Nat} (F : Fixed pre post b after)
+    (I : Inv pre post b s aL (Ai ++ [a1]) aR Bp (Bi ++ [a1]) Bs) :
+    Inv pre post b { s with aEnd := s.aEnd - 1, bEnd := s.bEnd - 1 }
+      aL Ai (a1 :: aR) Bp Bi (a1 :: Bs) := by
+  obtain ⟨p1, p2, p3, p4, p5, p6⟩ := I.b_parts F
+  have hA := I.hA
+  have hn : a1 ∉ Ai := by
+    intro h; exact (List.nodup_append.mp hA).2.2 a1 h a1 (by simp) rfl
+  have hBp : a1 ∉ Bp := fun h => p4 a1 h (by simp)
+  refine ⟨by simpa using I.ha, I.haS, by have := I.haE; simp at *; omega,
+    by simpa using I.hb, I.hbS, by have := I.hbE; simp at *; omega, ?_,
+    (List.nodup_append.mp hA).1, ?_, fun x hx => I.hApre x (by simp [hx]),
+    fun x hx => I.hApost x (by simp [hx]), ?_⟩
+  · have := I.hch
+    rw [without_append_left, without_cons_of_not_mem hBp] at this
+    simpa using this
+  · intro x hx
+    have := I.hABs x (by simp [hx])
+    simp [this]; intro e; exact hn (e ▸ hx)
+  · have := I.hbE
+    exact I.hmap.mono (Nat.le_refl _) (by simp) (fun x hx => by simp [hx]) (fun x _ h => h)
+
+theorem set_mid (l1 l2 : List Nat) (y x : Nat) (i : Nat) (h : i = l1.length) :
+    (l1 ++ y :: l2).set i x = l1 ++ x :: l2 := by subst h; simp
+
+/-- swap backwards: the invariant part -/
+theorem Inv.step_swap {a0 a1 : Nat} {Am Bm : List Nat} (F : Fixed pre post b after)
+    (I : Inv pre post b s aL (a0 :: (Am ++ [a1])) aR Bp (a1 :: (Bm ++ [a0])) Bs) :
+    Inv pre post b { s with ch := pre ++ Bp ++ a1 :: (without Am Bp ++ a0 :: (Bs ++ post)),
+                            aStart := s.aStart + 1, bStart := s.bStart + 1,
+                            aEnd := s.aEnd - 1, bEnd := s.bEnd - 1, a := s.a.set! (s.aEnd - 1) a0 }
+      (aL ++ [a0]) Am (a0 :: aR) (Bp ++ [a1]) Bm (a0 :: Bs) := by
+  obtain ⟨p1, p2, p3, p4, p5, p6⟩ := I.b_parts F
+  have hA := I.hA
+  simp only [List.nodup_cons, List.nodup_append, List.mem_append, List.mem_cons] at hA
+  have hn0 : a0 ∉ Am := by grind
+  have hn1 : a1 ∉ Am := by grind
+  refine ⟨?_, by simpa using I.haS, by have := I.haE; simp at *; omega,
+    by simpa using I.hb, by simpa using I.hbS, by have := I.hbE; simp at *; omega, ?_,
+    by grind, ?_, fun x hx => I.hApre x (by simp [hx]),
+    fun x hx => I.hApost x (by simp [hx]), ?_⟩
+  · have h1 := I.ha; have h2 := I.haE; have h3 := I.haS
+    simp only [Array.set!_eq_setIfInBounds, Array.toList_setIfInBounds, h1]
+    have := set_mid (aL ++ a0 :: Am) aR a1 a0 (s.aEnd - 1) (by simp at *; omega)
+    simpa using this
+  · simp only [without_snoc_of_not_mem hn1]
+    simp
+  · intro x hx
+    have := I.hABs x (by simp [hx])
+    simp [this]; intro e; exact hn0 (e ▸ hx)
+  · have := I.hbE
+    refine I.hmap.mono (by simp) (by simp) (fun x hx => by simp [hx]) ?_
+    intro x hx h
+    simp at h
+    rcases h with h | h
+    · exact h
+    · exact absurd (h ▸ hx) hn1
+
+/-- swap backwards: the DOM part -/
+theorem Inv.swap_dom {a0 a1 : Nat} {Am Bm : List Nat} (F : Fixed pre post b after)
+    (I : Inv pre post b s aL (a0 :: (Am ++ [a1])) aR Bp (a1 :: (Bm ++ [a0])) Bs) :
+    ∃ ch1, insertBefore s.ch a1 (nextSibling s.ch a0) = .ok ch1 ∧
+      insertBefore ch1 a0 (nextSibling s.ch a1) = .ok (pre ++ Bp ++ a1 :: (without Am Bp ++ a0 :: (Bs ++ post))) := by
+  obtain ⟨p1, p2, p3, p4, p5, p6⟩ := I.b_parts F
+  have hnd := I.ch_nodup F
+  have h0 : a0 ∉ Bp := fun h => p4 a0 h (by simp)
+  have h1 : a1 ∉ Bp := fun h => p4 a1 h (by simp)
+  have hch : s.ch = (pre ++ Bp) ++ a0 :: (without Am Bp ++ a1 :: (Bs ++ post)) := by
+    rw [I.hch, without_cons_of_not_mem h0, without_append_left, without_cons_of_not_mem h1]; simp
+  rw [← I.hch, hch] at hnd
+  rw [hch]
+  exact swap_ops hnd
+
+/-! index facts for `b = Bp ++ B ++ Bs` -/
+
+theorem idx_Bp {x j : Nat} (hb : b = Bp ++ B ++ Bs) (h : b[j]? = some x) (hj : j < Bp.length) : x ∈ Bp := by
+  subst hb
+  rw [List.append_assoc, List.getElem?_append_left hj] at h
+  exact List.mem_of_getElem? h
+
+theorem idx_Bs {x j : Nat} (hb : b = Bp ++ B ++ Bs) (h : b[j]? = some x) (hj : Bp.length + B.length ≤ j) :
+    x ∈ Bs := by
+  subst hb
+  rw [List.getElem?_append_right (by simpa using hj)] at h
+  exact List.mem_of_getElem? h
+
+theorem idx_B {j : Nat} (hb : b = Bp ++ B ++ Bs) (hj : Bp.length ≤ j) (hj2 : j < Bp.length + B.length) :
+    b[j]? = B[j - Bp.length]? := by
+  subst hb
+  rw [List.append_assoc, List.getElem?_append_right hj, List.getElem?_append_left (by omega)]
+
+theorem idx_of_mem_Bp {x : Nat} (hb : b = Bp ++ B ++ Bs) (h : x ∈ Bp) : ∃ j, j < Bp.length ∧ b[j]? = some x := by
+  subst hb
+  obtain ⟨j, hj, e⟩ := List.mem_iff_getElem.mp h
+  refine ⟨j, hj, ?_⟩
+  rw [List.append_assoc, List.getElem?_append_left hj, List.getElem?_eq_getElem hj, e]
+
+/-- the map used by the fallback branch satisfies `MapSome` for the current window -/
+theorem Inv.theMap_ok (F : Fixed pre post b after) (I : Inv pre post b s aL A aR Bp B Bs) :
+    MapSome b (theMap b.toArray s) s.bStart s.bEnd A := by
+  have hm := I.hmap
+  unfold theMap
+  unfold MapOk at hm
+  split
+  · rename_i m h; simpa only [h] using hm
+  · rename_i h
+    simp only [h] at hm
+    obtain ⟨p1, p2, p3, p4, p5, p6⟩ := I.b_parts F
+    have hbS := I.hbS; have hbE := I.hbE
+    refine ⟨s.bStart, s.bEnd, Nat.le_refl _, Nat.le_refl _, ?_, ?_⟩
+    · intro x j
+      rw [I.bWin_eq]
+      have := get_zipIdx (L := B) s.bStart 0 p2 x j
+      rw [this]
+      constructor
+      · rintro ⟨i, hi, hj⟩
+        have hi2 : i < B.length := (List.getElem?_eq_some_iff.mp hi).1
+        refine ⟨by omega, by omega, ?_⟩
+        rw [idx_B I.hb (by omega) (by omega), ← hi]; congr 1; omega
+      · rintro ⟨h1, h2, h3⟩
+        refine ⟨j - s.bStart, ?_, by omega⟩
+        rw [idx_B I.hb (by omega) (by omega)] at h3
+        rw [← h3]; congr 1; omega
+    · intro x hx j hj
+      apply Nat.le_of_not_lt
+      intro hlt
+      exact hm x hx (idx_Bp I.hb hj (by omega))
+
+theorem MapSome.get_some {m : NodeMap} {bS bE x j : Nat} (h : MapSome b m bS bE A) (hg : m.get x = some j) :
+    b[j]? = some x := by
+  obtain ⟨s0, e0, a1, a2, a3, a4⟩ := h
+  exact ((a3 x j).mp hg).2.2
+
+/-- a remaining node the map does not know has not been placed -/
+theorem Inv.not_placed_of_get_none {m : NodeMap} {x : Nat} (I : Inv pre post b s aL A aR Bp B Bs)
+    (h : MapSome b m s.bStart s.bEnd A) (hx : x ∈ A) (hg : m.get x = none) : x ∉ Bp := by
+  obtain ⟨s0, e0, a1, a2, a3, a4⟩ := h
+  intro hp
+  obtain ⟨j, hj, e⟩ := idx_of_mem_Bp I.hb hp
+  have := a4 x hx j e
+  have h1 := I.hbS; have h2 := I.hbE
+  have : m.get x = some j := (a3 x j).mpr ⟨this, by omega, e⟩
+  rw [hg] at this; cases this
+
+/-- a remaining node that the map sends outside the current window has already been placed
+(unless it is the head of the window) -/
+theorem Inv.placed_of_get_some {m : NodeMap} {x j : Nat} (I : Inv pre post b s aL A aR Bp B Bs)
+    (h : MapSome b m s.bStart s.bEnd A) (hx : x ∈ A) (hg : m.get x = some j)
+    (hr : ¬ (s.bStart < j ∧ j < s.bEnd)) (hne : b[s.bStart]? ≠ some x ∨ s.bStart = s.bEnd) : x ∈ Bp := by
+  have e := h.get_some hg
+  have h1 := I.hbS; have h2 := I.hbE
+  by_cases hlt : j < s.bStart
+  · exact idx_Bp I.hb e (by omega)
+  · by_cases hge : s.bEnd ≤ j
+    · exact absurd (idx_Bs I.hb e (by omega)) (I.hABs x hx)
+    · have : j = s.bStart := by omega
+      subst this
+      rcases hne with hne | hne
+      · exact absurd e hne
+      · omega
+
+/-- map fallback, node already placed: skip -/
+theorem Inv.step_skip {a0 : Nat} {A' : List Nat} {m : NodeMap}
+    (I : Inv pre post b s aL (a0 :: A') aR Bp B Bs) (hm : MapSome b m s.bStart s.bEnd (a0 :: A'))
+    (hp : a0 ∈ Bp) :
+    Inv pre post b { s with map := some m, aStart := s.aStart + 1 } (aL ++ [a0]) A' aR Bp B Bs := by
+  have hA := I.hA
+  refine ⟨by simpa using I.ha, by simpa using I.haS, by have := I.haE; simp at *; omega,
+    I.hb, I.hbS, I.hbE, ?_,
+    (List.nodup_cons.mp hA).2, fun x hx => I.hABs x (by simp [hx]), fun x hx => I.hApre x (by simp [hx]),
+    fun x hx => I.hApost x (by simp [hx]), ?_⟩
+  · have := I.hch
+    rw [without_cons_of_mem hp] at this
+    exact this
+  · exact hm.mono (Nat.le_refl _) (Nat.le_refl _) (fun x hx => by simp [hx])
+
+/-- map fallback, node not in `b`: remove it -/
+theorem Inv.step_remove1 {a0 : Nat} {A' : List Nat} {m : NodeMap}
+    (I : Inv pre post b s aL (a0 :: A') aR Bp B Bs) (hm : MapSome b m s.bStart s.bEnd (a0 :: A'))
+    (hp : a0 ∉ Bp) :
+    removeChild s.ch a0 = .ok (pre ++ Bp ++ without A' Bp ++ Bs ++ post) ∧
+    Inv pre post b { s with map := some m, ch := pre ++ Bp ++ without A' Bp ++ Bs ++ post,
+                            aStart := s.aStart + 1 } (aL ++ [a0]) A' aR Bp B Bs := by
+  have hA := I.hA
+  constructor
+  · have hch : s.ch = (pre ++ Bp) ++ a0 :: (without A' Bp ++ Bs ++ post) := by
+      rw [I.hch, without_cons_of_not_mem hp]; simp
+    rw [hch, removeChild_mid (by simp [hp, I.hApre a0 (by simp)])]
+    simp
+  · exact ⟨by simpa using I.ha, by simpa using I.haS, by have := I.haE; simp at *; omega,
+      I.hb, I.hbS, I.hbE, rfl,
+      (List.nodup_cons.mp hA).2, fun x hx => I.hABs x (by simp [hx]), fun x hx => I.hApre x (by simp [hx]),
+      fun x hx => I.hApost x (by simp [hx]),
+      hm.mono (Nat.le_refl _) (Nat.le_refl _) (fun x hx => by simp [hx])⟩
+
+/-- map fallback: `replaceChild(b[bStart], a[aStart])` -/
+theorem Inv.step_replace {a0 b0 : Nat} {A' B' : List Nat} {m : NodeMap} (F : Fixed pre post b after)
+    (I : Inv pre post b s aL (a0 :: A') aR Bp (b0 :: B') Bs) (hm : MapSome b m s.bStart s.bEnd (a0 :: A'))
+    (hp : a0 ∉ Bp) (hne : a0 ≠ b0) :
+    replaceChild s.ch b0 a0 = .ok (pre ++ (Bp ++ [b0]) ++ without A' (Bp ++ [b0]) ++ Bs ++ post) ∧
+    Inv pre post b { s with map := some m, ch := pre ++ (Bp ++ [b0]) ++ without A' (Bp ++ [b0]) ++ Bs ++ post,
+                            aStart := s.aStart + 1, bStart := s.bStart + 1 }
+      (aL ++ [a0]) A' aR (Bp ++ [b0]) B' Bs := by
+  obtain ⟨p1, p2, p3, p4, p5, p6⟩ := I.b_parts F
+  have hA := I.hA
+  have hb0 : b0 ∈ b := by rw [I.hb]; simp
+  have hb0Bp : b0 ∉ Bp := fun h => p4 b0 h (by simp)
+  constructor
+  · have hnd := I.ch_nodup F
+    have hch : s.ch = (pre ++ Bp) ++ a0 :: (without A' Bp ++ Bs ++ post) := by
+      rw [I.hch, without_cons_of_not_mem hp]; simp
+    rw [← I.hch, hch] at hnd
+    have hnd2 : (without A' Bp ++ Bs ++ post).Nodup :=
+      (List.nodup_cons.mp (List.nodup_append.mp hnd).2.1).2
+    rw [hch, replaceChild_mid hnd (by simp [hb0Bp, F.bpre b0 hb0]) (Ne.symm hne),
+      erase_eq_without hnd2, without_append_left, without_append_left,
+      without_eq_self (A := Bs) (by intro x hx; simp; intro e; exact p6 b0 (by simp) (e ▸ hx)),
+      without_eq_self (A := post) (by intro x hx; simp; intro e; exact F.bpost b0 hb0 (e ▸ hx)),
+      ← without_append_right]
+    simp
+  · have := I.hbE
+    exact ⟨by simpa using I.ha, by simpa using I.haS, by have := I.haE; simp at *; omega,
+      by simpa using I.hb, by simpa using I.hbS, by have := I.hbE; simp at *; omega, rfl,
+      (List.nodup_cons.mp hA).2, fun x hx => I.hABs x (by simp [hx]), fun x hx => I.hApre x (by simp [hx]),
+      fun x hx => I.hApost x (by simp [hx]),
+      hm.mono (by simp) (Nat.le_refl _) (fun x hx => by simp [hx])⟩
+
+/-- map fallback: insert the run `L` of new-order nodes before `a[aStart]` -/
+theorem Inv.step_insert {a0 j : Nat} {A' L B2 : List Nat} {m : NodeMap} (F : Fixed pre post b after)
+    (I : Inv pre post b s aL (a0 :: A') aR Bp (L ++ a0 :: B2) Bs)
+    (hm : MapSome b m s.bStart s.bEnd (a0 :: A')) (hL : s.bStart + L.length = j) :
+    insertAll s.ch (some a0) L = .ok (pre ++ (Bp ++ L) ++ without (a0 :: A') (Bp ++ L) ++ Bs ++ post) ∧
+    Inv pre post b { s with map := some m, ch := pre ++ (Bp ++ L) ++ without (a0 :: A') (Bp ++ L) ++ Bs ++ post,
+                            bStart := j }
+      aL (a0 :: A') aR (Bp ++ L) (a0 :: B2) Bs := by
+  obtain ⟨p1, p2, p3, p4, p5, p6⟩ := I.b_parts F
+  have hLB : ∀ x ∈ L, x ∈ b := by intro x hx; rw [I.hb]; simp [hx]
+  have ha0Bp : a0 ∉ Bp := fun h => p4 a0 h (by simp)
+  have hp2 := p2
+  simp only [List.nodup_append, List.nodup_cons, List.mem_cons] at hp2
+  have ha0L : a0 ∉ L := fun h => hp2.2.2 a0 h a0 (by simp) rfl
+  constructor
+  · have hnd := I.ch_nodup F
+    have hch : s.ch = (pre ++ Bp) ++ a0 :: (without A' Bp ++ Bs ++ post) := by
+      rw [I.hch, without_cons_of_not_mem ha0Bp]; simp
+    rw [← I.hch, hch] at hnd
+    rw [hch, insertAll_before hnd hp2.1 (by
+        intro x hx
+        refine ⟨?_, fun e => ha0L (e ▸ hx)⟩
+        simp [F.bpre x (hLB x hx)]
+        exact fun h => p4 x h (by simp [hx])),
+      without_append_left, without_append_left,
+      without_eq_self (A := Bs) (fun x hx h => p6 x (by simp [h]) hx),
+      without_eq_self (A := post) (fun x hx h => F.bpost x (hLB x h) hx),
+      ← without_append_right, without_cons_of_not_mem (by simp [ha0Bp, ha0L])]
+    simp
+  · have h1 := I.hbE; have h2 := I.hbS
+    exact ⟨I.ha, I.haS, I.haE, by simpa using I.hb, by simp; omega, by simp at *; omega, rfl,
+      I.hA, I.hABs, I.hApre, I.hApost, hm.mono (by simp; omega) (Nat.le_refl _) (fun x hx => hx)⟩
+
+/-- splitting the `b` window at the index the map gives -/
+theorem Inv.split_B {x j : Nat} (I : Inv pre post b s aL A aR Bp B Bs) (e : b[j]? = some x)
+    (hr : s.bStart < j ∧ j < s.bEnd) :
+    ∃ L B2, B = L ++ x :: B2 ∧ s.bStart + L.length = j ∧ L ≠ [] ∧
+      (b.toArray.toList.drop s.bStart).take (j - s.bStart) = L := by
+  have h1 := I.hbE; have h2 := I.hbS
+  rw [idx_B I.hb (by omega) (by omega)] at e
+  have hlt : j - Bp.length < B.length := by omega
+  have e' : B[j - Bp.length] = x := by
+    rw [List.getElem?_eq_getElem hlt] at e; exact Option.some.inj e
+  refine ⟨B.take (j - Bp.length), B.drop (j - Bp.length + 1), ?_, ?_, ?_, ?_⟩
+  · rw [← e', List.getElem_cons_drop, List.take_append_drop]
+  · rw [List.length_take]; omega
+  · intro h
+    have hlen : (B.take (j - Bp.length)).length = j - Bp.length := by rw [List.length_take]; omega
+    rw [h, List.length_nil] at hlen; omega
+  · have : b.toArray.toList = Bp ++ (B ++ Bs) := by simp [I.hb]
+    rw [this, ← h2, List.drop_left, List.take_append_of_le_length (by omega)]
+
+/-- the removal branch -/
+theorem Inv.step_removeAll (I : Inv pre post b s aL A aR Bp [] Bs) :
+    removeAll s.ch s.map s.aWin = .ok (pre ++ Bp ++ Bs ++ post) ∧
+    Inv pre post b { s with ch := pre ++ Bp ++ Bs ++ post, aStart := s.aEnd } (aL ++ A) [] aR Bp [] Bs := by
+  have h1 := I.hbE; have h2 := I.hbS
+  have hf : without A Bp = A.filter (unknown s.map) := by
+    unfold without
+    apply List.filter_congr
+    intro x hx
+    have hm := I.hmap
+    cases hmap : s.map with
+    | none =>
+      rw [hmap] at hm
+      have := hm x hx
+      simp [unknown, this]
+    | some m =>
+      rw [hmap] at hm
+      simp only [MapOk] at hm
+      cases hg : m.get x with
+      | none => simp [unknown, hg, I.not_placed_of_get_none hm hx hg]
+      | some j =>
+        have := I.placed_of_get_some hm hx hg (by simp at h1; omega) (Or.inr (by simpa using h1.symm))
+        simp [unknown, hg, this]
+  constructor
+  · rw [I.aWin_eq, I.hch, hf]
+    have := removeAll_spec (l1 := pre ++ Bp) (l2 := Bs ++ post) s.map (A := A) (by
+      intro x hx hu
+      have : x ∈ without A Bp := by rw [hf]; exact List.mem_filter.mpr ⟨hx, hu⟩
+      simp [I.hApre x hx, (mem_without.mp this).2])
+    simpa using this
+  · refine ⟨by simpa using I.ha, by have := I.haE; have := I.haS; simp; omega, by simp,
+      I.hb, I.hbS, I.hbE, by simp, List.nodup_nil, by simp, by simp, by simp, ?_⟩
+    exact I.hmap.mono (Nat.le_refl _) (Nat.le_refl _) (by simp) (by simp)
+
+theorem exists_concat {l : List Nat} (h : l ≠ []) : ∃ i x, l = i ++ [x] :=
+  ⟨l.dropLast, l.getLast h, (List.dropLast_concat_getLast h).symm⟩
+
+/-- the append branch -/
+theorem Inv.step_append (F : Fixed pre post b after) (I : Inv pre post b s aL [] aR Bp B Bs) :
+    iter b.toArray after s = .ok { s with ch := pre ++ (Bp ++ B) ++ Bs ++ post, bStart := s.bEnd } ∧
+    Inv pre post b { s with ch := pre ++ (Bp ++ B) ++ Bs ++ post, bStart := s.bEnd }
+      aL [] aR (Bp ++ B) [] Bs := by
+  obtain ⟨p1, p2, p3, p4, p5, p6⟩ := I.b_parts F
+  have h1 := I.hbE; have h2 := I.hbS
+  have hnd := I.ch_nodup F
+  have hch : s.ch = (pre ++ Bp) ++ (Bs ++ post) := by rw [I.hch]; simp
+  have hBb : ∀ x ∈ B, x ∈ b := by intro x hx; rw [I.hb]; simp [hx]
+  have key : insertAll s.ch (Bs ++ post).head? B = .ok (pre ++ (Bp ++ B) ++ Bs ++ post) := by
+    rw [hch, insertAll_fresh (by simpa using hnd) p2 (by
+      intro x hx
+      simp [F.bpre x (hBb x hx), F.bpost x (hBb x hx), p6 x hx]
+      exact fun h => p4 x h hx)]
+    simp
+  have hsz : b.toArray.size = Bp.length + B.length + Bs.length := by
+    rw [List.size_toArray, I.hb]; simp; omega
+  have haE : s.aEnd = s.aStart := by simpa using I.haE
+  constructor
+  · cases hBs : Bs with
+    | nil =>
+      subst hBs
+      apply iter_append_end haE (by simp only [List.length_nil] at hsz; omega)
+      rw [I.bWin_eq, F.after_eq]; simpa using key
+    | cons c Bs' =>
+      subst hBs
+      have hlt : s.bEnd < b.toArray.size := by simp only [List.length_cons] at hsz; omega
+      have key' : insertAll s.ch (some c) B = .ok (pre ++ (Bp ++ B) ++ c :: Bs' ++ post) := by
+        simpa using key
+      by_cases h0 : s.bStart = 0
+      · refine iter_append_start haE hlt h0 (x := c) ?_ (by rw [I.bWin_eq]; exact key')
+        have hBp : Bp = [] := List.eq_nil_of_length_eq_zero (by omega)
+        rw [List.getElem?_toArray, I.hb, hBp]
+        simpa using getElem?_mid B Bs' c (s.bEnd - s.bStart) (by omega)
+      · obtain ⟨Bpi, l, hl⟩ := exists_concat (l := Bp) (by intro h; rw [h] at h2; simp at h2; omega)
+        subst hl
+        have hx : b.toArray[s.bStart - 1]? = some l := by
+          rw [List.getElem?_toArray, I.hb]
+          simpa using getElem?_mid Bpi (B ++ c :: Bs') l (s.bStart - 1) (by simp at h2; omega)
+        refine iter_append_mid haE hlt h0 hx ?_
+        have hl1 : l ∉ pre ++ Bpi := by
+          simp only [without_nil_left, List.nodup_append, List.mem_append, List.nodup_cons, List.mem_cons] at hnd
+          simp only [List.mem_append]; grind
+        have : nextSibling s.ch l = some c := by
+          rw [show s.ch = (pre ++ Bpi) ++ l :: (c :: Bs' ++ post) by rw [hch]; simp, nextSibling_mid hl1]
+          rfl
+        rw [this, I.bWin_eq]; exact key'
+  · exact ⟨I.ha, I.haS, I.haE, by simpa using I.hb, by simp; omega, by simp, by simp,
+      List.nodup_nil, by simp, by simp, by simp,
+      I.hmap.mono (by simp; omega) (Nat.le_refl _) (by simp) (by simp)⟩
+
+theorem Inv.b_first' {b0 : Nat} {B' : List Nat} (I : Inv pre post b s aL A aR Bp (b0 :: B') Bs) :
+    b[s.bStart]? = some b0 := by
+  have := I.b_first; rwa [List.getElem?_toArray] at this
+
+theorem tail_concat {x y : Nat} {t i : List Nat} (h : x :: t = i ++ [y]) (hne : x ≠ y) :
+    ∃ m, t = m ++ [y] := by
+  cases i with
+  | nil => simp at h; exact absurd h.1 hne
+  | cons z m => simp at h; exact ⟨m, h.2⟩
+
+/-- one iteration of the main loop re-establishes the invariant and decreases the measure -/
+theorem Inv.step (F : Fixed pre post b after) (I : Inv pre post b s aL A aR Bp B Bs)
+    (hpos : 0 < A.length + B.length) :
+    ∃ s' aL' A' aR' Bp' B' Bs', iter b.toArray after s = .ok s' ∧
+      Inv pre post b s' aL' A' aR' Bp' B' Bs' ∧ A'.length + B'.length < A.length + B.length := by
+  cases A with
+  | nil =>
+    have := I.step_append F
+    exact ⟨_, _, _, _, _, _, _, this.1, this.2, by simpa using hpos⟩
+  | cons a0 A' =>
+    have haE : s.aEnd ≠ s.aStart := by have := I.haE; simp at this; omega
+    cases B with
+    | nil =>
+      have := I.step_removeAll
+      exact ⟨_, _, _, _, _, _, _, iter_remove haE (by simpa using I.hbE) this.1, this.2, by simp⟩
+    | cons b0 B' =>
+      have hbE : s.bEnd ≠ s.bStart := by have := I.hbE; simp at this; omega
+      obtain ⟨Ai, a1, hAi⟩ := exists_concat (l := a0 :: A') (by simp)
+      obtain ⟨Bi, b1, hBi⟩ := exists_concat (l := b0 :: B') (by simp)
+      have hlA : A'.length + 1 = Ai.length + 1 := by simpa using congrArg List.length hAi
+      have hlB : B'.length + 1 = Bi.length + 1 := by simpa using congrArg List.length hBi
+      have ha0 := I.a_first
+      have hb0 := I.b_first
+      have ha1 : s.a[s.aEnd - 1]? = some a1 := by
+        have I' := I; rw [hAi] at I'; exact I'.a_last
+      have hb1 : b.toArray[s.bEnd - 1]? = some b1 := by
+        have I' := I; rw [hBi] at I'; exact I'.b_last
+      by_cases e0 : a0 = b0
+      · subst e0
+        exact ⟨_, _, _, _, _, _, _, iter_prefix haE hbE ha0 hb0 ha1 hb1 rfl, I.step_prefix F, by simp; omega⟩
+      by_cases e1 : a1 = b1
+      · subst e1
+        have I' := I; rw [hAi, hBi] at I'
+        exact ⟨_, _, _, _, _, _, _, iter_suffix haE hbE ha0 hb0 ha1 hb1 e0 rfl, I'.step_suffix F,
+          by simp; omega⟩
+      by_cases e2 : a0 = b1 ∧ b0 = a1
+      · obtain ⟨e2, e3⟩ := e2
+        subst e2 e3
+        obtain ⟨Am, hAm⟩ := tail_concat hAi e0
+        obtain ⟨Bm, hBm⟩ := tail_concat hBi (Ne.symm e0)
+        subst hAm hBm
+        obtain ⟨ch1, h1, h2⟩ := I.swap_dom F
+        have hsz : s.aEnd - 1 < s.a.size := by
+          have h3 := I.haE; have h4 := I.haS
+          have := congrArg List.length I.ha
+          simp at this h3; omega
+        exact ⟨_, _, _, _, _, _, _, iter_swap haE hbE ha0 hb0 ha1 hb1 e0 e1 ⟨rfl, rfl⟩ h1 h2 hsz,
+          I.step_swap F, by simp; omega⟩
+      · have hmO := I.theMap_ok F
+        rw [iter_map haE hbE ha0 hb0 ha1 hb1 e0 e1 e2]
+        cases hg : (theMap b.toArray s).get a0 with
+        | none =>
+          have hp := I.not_placed_of_get_none hmO (by simp) hg
+          have := I.step_remove1 hmO hp
+          exact ⟨_, _, _, _, _, _, _, mapBranch_remove hg this.1, this.2, by simp⟩
+        | some j =>
+          by_cases hr : s.bStart < j ∧ j < s.bEnd
+          · have e := hmO.get_some hg
+            obtain ⟨L, B2, hB, hL, hLne, hLeq⟩ := I.split_B e hr
+            have hLpos : 0 < L.length := List.length_pos_iff.mpr hLne
+            by_cases hs : seqLen s.a (theMap b.toArray s) s.aEnd s.bEnd j (s.a.size + 1) s.aStart 1 > j - s.bStart
+            · have I' := I; rw [hB] at I'
+              have hmO' := hmO
+              have := I'.step_insert F hmO' hL
+              refine ⟨_, _, _, _, _, _, _, mapBranch_insert hg hr hs (by rw [hLeq]; exact this.1), this.2, ?_⟩
+              rw [hB]; simp; omega
+            · obtain ⟨p1, p2, p3, p4, p5, p6⟩ := I.b_parts F
+              have hp : a0 ∉ Bp := fun h => p4 a0 h (by rw [hB]; simp)
+              have := I.step_replace F hmO hp e0
+              exact ⟨_, _, _, _, _, _, _, mapBranch_replace hg hr hs this.1, this.2, by simp; omega⟩
+          · have hp := I.placed_of_get_some hmO (by simp) hg hr
+              (Or.inl (by rw [I.b_first']; simpa using Ne.symm e0))
+            exact ⟨_, _, _, _, _, _, _, mapBranch_skip hg hr, I.step_skip hmO hp, by simp⟩
+
+end InvLemmas
+
+/-! ### the loop and the whole routine -/
+
+theorem loop_ok {pre post b : List Nat} {after : Option Nat} (F : Fixed pre post b after) :
+    ∀ (fuel : Nat) (s : St) (aL A aR Bp B Bs : List Nat), Inv pre post b s aL A aR Bp B Bs →
+      A.length + B.length < fuel →
+      ∃ s', loop b.toArray after fuel s = .ok s' ∧ s'.ch = pre ++ b ++ post := by
+  intro fuel
+  induction fuel with
+  | zero => intro s aL A aR Bp B Bs _ h; omega
+  | succ fuel ih =>
+    intro s aL A aR Bp B Bs I hlt
+    have h1 := I.haE; have h2 := I.hbE
+    by_cases hc : s.aStart < s.aEnd ∨ s.bStart < s.bEnd
+    · obtain ⟨s', aL', A', aR', Bp', B', Bs', hit, I', hm⟩ := I.step F (by omega)
+      obtain ⟨s'', hl, hch⟩ := ih s' aL' A' aR' Bp' B' Bs' I' (by omega)
+      exact ⟨s'', by simp only [loop, hc, if_true, hit]; exact hl, hch⟩
+    · have hA : A = [] := List.eq_nil_of_length_eq_zero (by omega)
+      have hB : B = [] := List.eq_nil_of_length_eq_zero (by omega)
+      subst hA hB
+      refine ⟨s, by simp only [loop, hc, if_false], ?_⟩
+      rw [I.hch, I.hb]; simp
+
+theorem reconcile_ok (pre a b post : List Nat) (ha : a ≠ []) (hnd : (pre ++ a ++ post).Nodup)
+    (hb : b.Nodup) (hnew : ∀ x ∈ b, x ∉ a → x ∉ pre ∧ x ∉ post) :
+    reconcile (pre ++ a ++ post) a b = .ok (pre ++ b ++ post) := by
+  obtain ⟨ai, last, hl⟩ := exists_concat ha
+  have hnd' := hnd
+  simp only [List.nodup_append, List.mem_append] at hnd'
+  have hlast : a.getLast? = some last := by rw [hl]; simp
+  have hafter : nextSibling (pre ++ a ++ post) last = post.head? := by
+    rw [hl, show pre ++ (ai ++ [last]) ++ post = (pre ++ ai) ++ last :: post by simp]
+    apply nextSibling_mid
+    rw [hl] at hnd'
+    simp only [List.mem_append, List.nodup_append, List.mem_singleton] at hnd' ⊢
+    grind
+  have F : Fixed pre post b (nextSibling (pre ++ a ++ post) last) := by
+    refine ⟨hb, by grind, by grind, by grind, ?_, ?_, hafter⟩
+    · intro x hx
+      by_cases hxa : x ∈ a
+      · grind
+      · exact (hnew x hx hxa).1
+    · intro x hx
+      by_cases hxa : x ∈ a
+      · grind
+      · exact (hnew x hx hxa).2
+  have I : Inv pre post b ⟨pre ++ a ++ post, a.toArray, 0, a.length, 0, b.length, none⟩ [] a [] [] b [] := by
+    refine ⟨by simp, rfl, by simp, by simp, rfl, by simp, by simp, by grind, by simp, by grind, by grind, ?_⟩
+    simp [MapOk]
+  obtain ⟨s', hloop, hch⟩ := loop_ok F (2 * (a.length + b.length) + 2) _ _ _ _ _ _ _ I (by omega)
+  simp only [reconcile, hlast, hloop, hch]
+
+/-! ### `nodesBetween` -/
+
+theorem dropWhile_mid {p : Nat → Bool} {l1 l2 : List Nat} {y : Nat} (h1 : ∀ x ∈ l1, p x = true)
+    (hy : p y = false) : (l1 ++ y :: l2).dropWhile p = y :: l2 := by
+  induction l1 with
+  | nil => simp [hy]
+  | cons x l1 ih =>
+    simp only [List.cons_append, List.dropWhile_cons, h1 x (by simp), if_true]
+    exact ih (fun z hz => h1 z (by simp [hz]))
+
+theorem takeWhile_mid {p : Nat → Bool} {l1 l2 : List Nat} {y : Nat} (h1 : ∀ x ∈ l1, p x = true)
+    (hy : p y = false) : (l1 ++ y :: l2).takeWhile p = l1 := by
+  induction l1 with
+  | nil => simp [hy]
+  | cons x l1 ih =>
+    simp only [List.cons_append, List.takeWhile_cons, h1 x (by simp), if_true]
+    rw [ih (fun z hz => h1 z (by simp [hz]))]
+
+theorem nodesBetween_region (pre old post : List Nat) (start stop : Nat)
+    (hnd : (pre ++ [start] ++ old ++ [stop] ++ post).Nodup) :
+    nodesBetween (pre ++ [start] ++ old ++ [stop] ++ post) start stop = old := by
+  simp only [List.nodup_append, List.mem_append, List.nodup_cons, List.mem_singleton] at hnd
+  unfold nodesBetween
+  rw [show pre ++ [start] ++ old ++ [stop] ++ post = pre ++ start :: (old ++ stop :: post) by simp,
+    dropWhile_mid (by intro x hx; simp; intro e; subst e; grind) (by simp)]
+  simp only [List.drop_one, List.tail_cons]
+  exact takeWhile_mid (by intro x hx; simp; intro e; subst e; grind) (by simp)
+
 end SycVerif.Reconcile
